@@ -250,11 +250,10 @@ def bandlimited_rms(r, psd, wllow=None, wlhigh=None, flow=None, fhigh=None):
     work[r > fhigh] = 0
     if r.ndim == 2:
         c = tuple(s//2 for s in work.shape)
-        c2 = list(c)
-        c2[0] = c2[0] - 1
-        c2 = tuple(c2)
         pt1 = r[c]
-        pt2 = r[c2]
+        pt2 = r[c[0] - 1, c[1]]
+        # the frequency increment along the second axis differs from the first one for non-square data
+        dx2 = abs(r[c[0], c[1] - 1] - pt1)
     else:
         c = r.shape[0]//2
         pt1 = r[c]
@@ -270,7 +269,7 @@ def bandlimited_rms(r, psd, wllow=None, wlhigh=None, flow=None, fhigh=None):
     reduced = trapezoid(work, dx=dx, axis=0)
 
     if r.ndim == 2:
-        reduced = trapezoid(reduced, dx=dx, axis=0)
+        reduced = trapezoid(reduced, dx=dx2, axis=0)
 
     return np.sqrt(reduced)
 
